@@ -368,6 +368,33 @@ def main(tier, seed):
         except Exception as e:
             rep.violation('array:exception:%s' % type(e).__name__, 'forward driver raises %r for a result of shape %s' % (e, shp), dict(kind='array', case=meta, exc=repr(e)))
 
+    # ---------------- array-SHAPED points: x of rank 2 (and 3), direction v given in every shape NumPy broadcasts to x (full, scalar, row,
+    # (1,b), column (a,1), nested list): extract_jac_vec = sum_ij dF/dx_ij * broadcast(v)_ij, integer data, exact
+    for _ in range(12 if tier == 'quick' else 150):
+        shp = rng.choice([(2, 3), (3, 2), (2, 2), (2, 1, 3)])
+        x = numpy.array([rng.randint(-3, 3) for _ in range(int(numpy.prod(shp)))], dtype=float).reshape(shp)
+        C = numpy.array([rng.randint(-3, 3) for _ in range(x.size)], dtype=float).reshape(shp)
+        Q = numpy.array([rng.randint(-2, 2) for _ in range(x.size)], dtype=float).reshape(shp)
+        fa = lambda z: ap.sum(C * z + Q * z * z)
+        G = C + 2 * Q * x                                   # dF/dx
+        forms = {'full': numpy.array([rng.randint(-3, 3) for _ in range(x.size)], dtype=float).reshape(shp), 'scalar': 2.0,
+                 'row': numpy.array([rng.randint(-3, 3) for _ in range(shp[-1])], dtype=float),
+                 'leading-1': numpy.array([rng.randint(-3, 3) for _ in range(shp[-1])], dtype=float).reshape((1,) * (len(shp) - 1) + (shp[-1],)),
+                 'column': numpy.array([rng.randint(-3, 3) for _ in range(shp[0])], dtype=float).reshape((shp[0],) + (1,) * (len(shp) - 1))}
+        forms['column as nested list'] = forms['column'].tolist()
+        for fname, v in forms.items():
+            rep.count('driver', 'jac_vec: array-shaped point'); rep.count('direction given as', fname)
+            rep.case(('jac_vec-array', shp, fname, x.tobytes().hex(), repr(numpy.asarray(v).tolist())), True, sample=dict(driver='extract_jac_vec', point_shape=list(shp), direction=fname))
+            try:
+                want = float(numpy.sum(G * numpy.broadcast_to(numpy.asarray(v, dtype=float), shp)))
+                got = float(numpy.asarray(UTPM.extract_jac_vec(fa(UTPM.init_jac_vec(x, v)))).reshape(-1)[0])
+                if got != want:
+                    rep.violation('array-point:jac_vec:%s' % fname, 'extract_jac_vec at a point of shape %s with the direction given as %s: %r, expected %r' % (shp, fname, got, want),
+                                  dict(kind='array-point', shape=list(shp), form=fname, x=x.tolist(), v=numpy.asarray(v).tolist(), C=C.tolist(), Q=Q.tolist()))
+            except Exception as e:
+                rep.violation('array-point:jac_vec:%s:exception' % fname, 'init_jac_vec / extract_jac_vec at a point of shape %s with the direction given as %s raises %r' % (shp, fname, e),
+                              dict(kind='array-point', shape=list(shp), form=fname, exc=repr(e)))
+
     # ---------------- the tensor driver within call histories (seeded / default generator calls, callers scribbling on results in between)
     import c15
     c15.histories(rep, rng, tier)
